@@ -127,4 +127,61 @@ pub open spec fn badge_ok(a: BadgeAccount<'_>, config: Pubkey, mint: Pubkey) -> 
     ensures r matches Ok(b) ==> b == (badge_ok(*token_badge, whirlpools_config_key, token_mint.data.k) && token_badge.stored->Some_0.attribute_require_non_transferable_position),
 //@ rewrite /TokenBadge::try_deserialize\(&mut token_badge\.data\.borrow\(\)\.as_ref\(\)\)\?/ => /try_deserialize_badge(token_badge)?/
 //@ end
+
+// ------------------------------------------------------------------ the raw TLV scan (C19): which extension types a mint's TLV area holds
+//@ assume TLV-scan shims: read_u16_le_from_slice (u16::from_le_bytes of a two-byte slice) and TokenExtensionType::try_from(u16) (TryFromPrimitive derive: the variant with that discriminant, error for an unknown number) are external stubs with exactly these contracts; ProgramError is reduced to one value
+pub uninterp spec fn ext_of_num(n: u16) -> Option<TokenExtensionType>;
+pub open spec fn le16(d: Seq<u8>, i: int) -> u16 { (d[i] as int + 256 * d[i + 1] as int) as u16 }
+pub struct ProgramErrorShim {}
+#[verifier::external_body]
+fn read_u16_at(d: &[u8], a: usize, b: usize) -> (r: Result<u16>) requires a <= b <= d@.len(), ensures b - a >= 2 ==> r == Ok::<u16, Error>(le16(d@, a as int)), b - a < 2 ==> r is Err { unimplemented!() }
+#[verifier::external_body]
+fn ext_try_from(n: u16) -> (r: Result<TokenExtensionType>) ensures match ext_of_num(n) { Some(t) => r == Ok::<TokenExtensionType, Error>(t), None => r is Err } { unimplemented!() }
+pub open spec fn is_uninit(t: TokenExtensionType) -> bool { t is Uninitialized }
+#[verifier::external_body]
+fn ext_is_uninitialized(t: TokenExtensionType) -> (r: bool) ensures r == is_uninit(t) { unimplemented!() }
+/// the scan as a recursive function of (bytes, cursor): type (2 bytes LE), length (2 bytes LE), value; ends at the end of the data, at fewer than two remaining
+/// bytes, or at an Uninitialized (0) type; an unknown type number, a missing length or a value running past the end is an error
+pub open spec fn tlv_scan(d: Seq<u8>, c: int) -> Result<Seq<TokenExtensionType>> decreases d.len() - c {
+    if c < 0 || c >= d.len() { Ok(Seq::empty()) }
+    else if d.len() < c + 2 { Ok(Seq::empty()) }
+    else { match ext_of_num(le16(d, c)) {
+        None => Err(Error { code: ErrorCode::InvalidEnum }),
+        Some(t) => if is_uninit(t) { Ok(Seq::empty()) }
+            else if d.len() < c + 4 { Err(Error { code: ErrorCode::InvalidEnum }) }
+            else { let end = c + 4 + le16(d, c + 2) as int;
+                if end > d.len() { Err(Error { code: ErrorCode::InvalidEnum }) }
+                else { match tlv_scan(d, end) { Ok(rest) => Ok(seq![t] + rest), Err(e) => Err(e) } } } } }
+}
+/// C19: the list handed to the allow-list check is exactly the scan of the mint's TLV bytes (errors are errors, whatever their code)
+//@ fn util/v2/token.rs get_token_extension_types -> r as=get_token_extension_types_bytes nodec canary
+    requires tlv_data@.len() <= 0x7FFF_0000, // account data is at most 10 MiB
+    ensures
+        tlv_scan(tlv_data@, 0) is Err ==> r is Err,
+        r matches Ok(v) ==> tlv_scan(tlv_data@, 0) == Ok::<Seq<TokenExtensionType>, Error>(v@),
+//@ rewrite /const TLV_TYPE_LENGTH: usize = 2;/ => /let TLV_TYPE_LENGTH: usize = 2;/
+//@ rewrite /const TLV_LENGTH_LENGTH: usize = 2;/ => /let TLV_LENGTH_LENGTH: usize = 2;/
+//@ rewrite /read_u16_le_from_slice\(&tlv_data\[tlv_type_start\.\.tlv_length_start\]\)\?/ => /read_u16_at(tlv_data, tlv_type_start, tlv_length_start)?/
+//@ rewrite /read_u16_le_from_slice\(&tlv_data\[tlv_length_start\.\.tlv_value_start\]\)\?/ => /read_u16_at(tlv_data, tlv_length_start, tlv_value_start)?/
+//@ rewrite /TokenExtensionType::try_from\(extension_type_num\)\s*\.map_err\(\|_\| ProgramError::InvalidAccountData\)\?/ => /ext_try_from(extension_type_num)?/
+//@ rewrite /extension_type == TokenExtensionType::Uninitialized/ => /ext_is_uninitialized(extension_type)/
+//@ rewrite /return Err\(ProgramError::InvalidAccountData\.into\(\)\);/ => /return Err(Error { code: ErrorCode::InvalidEnum });/ 2
+//@ loop 0
+        invariant cursor <= tlv_data@.len(), tlv_data@.len() <= 0x7FFF_0000, TLV_TYPE_LENGTH == 2, TLV_LENGTH_LENGTH == 2,
+            // what has been collected so far, followed by the scan from the cursor, is the whole scan
+            match tlv_scan(tlv_data@, cursor as int) { Ok(rest) => tlv_scan(tlv_data@, 0) == Ok::<Seq<TokenExtensionType>, Error>(extension_types@ + rest), Err(e) => tlv_scan(tlv_data@, 0) is Err },
+//@ inject at /^\{/
+    proof { assert(Seq::<TokenExtensionType>::empty() + tlv_scan(tlv_data@, 0)->Ok_0 =~= tlv_scan(tlv_data@, 0)->Ok_0); }
+//@ inject after /let mut cursor = 0;/
+    let ghost full = tlv_scan(tlv_data@, 0);
+//@ inject before /extension_types\.push\(extension_type\);/
+            let ghost before = extension_types@;
+//@ inject before /^            cursor = value_end_index;/
+            proof { let d = tlv_data@; let c = tlv_type_start as int; let rest = tlv_scan(d, value_end_index as int);
+                assert(ext_of_num(le16(d, c)) == Some(extension_type));
+                assert(value_end_index as int == c + 4 + le16(d, c + 2) as int);
+                assert(tlv_scan(d, c) == (match rest { Ok(x) => Ok::<Seq<TokenExtensionType>, Error>(seq![extension_type] + x), Err(e) => Err::<Seq<TokenExtensionType>, Error>(e) }));
+                assert(extension_types@ =~= before + seq![extension_type]);
+                if rest is Ok { assert((before + seq![extension_type]) + rest->Ok_0 =~= before + (seq![extension_type] + rest->Ok_0)); } }
+//@ end
 }
